@@ -308,3 +308,24 @@ func debugLoops(w *World, names []string) {
 		}
 	}
 }
+
+func debugPanics(w *World, names []string) {
+	var entries []*ssa.Function
+	for _, n := range names {
+		if fn := w.Func(n); fn != nil {
+			entries = append(entries, fn)
+		} else {
+			fmt.Println("unresolved", n)
+		}
+	}
+	var fns []*ssa.Function
+	for f := range w.libReach(entries) {
+		fns = append(fns, f)
+	}
+	sort.Slice(fns, func(i, j int) bool { return fnName(fns[i]) < fnName(fns[j]) })
+	for _, ps := range panicSites(w, fns) {
+		ok, how := closedTypeSwitchDefault(w, ps)
+		fmt.Printf("%s: %s %s closed=%v %s\n", w.Pos(ps.ins.Pos()), fnName(ps.fn), ps.desc, ok, how)
+	}
+	fmt.Println("functions", len(fns))
+}
